@@ -54,20 +54,33 @@ ReactBig == /\ phase = "react" /\ Rec[l].big = 1
                /\ act' = A(r.op, r.i, r.j, r.p1, r.p2) /\ res' = [k |-> "ok"]
             /\ l' = l + 1 /\ phase' = "load" /\ UNCHANGED below
 
-React == /\ phase = "react" /\ Rec[l].big = 0
-         /\ LET r == Rec[l] IN
-            /\ Do(A(r.op, r.i, r.j, r.p1, r.p2))
+\* The component receives a COPY of each selected individual (si, sj); the molecule it locates must hold an individual
+\* equal to the selected one in solution and objective value -- which of several such molecules reacts is not fixed by
+\* the statement -- and two reactants are two molecules.  When the state changed, the harness reports the located pair
+\* (i, j) (the pair whose slots hold the products and outside which nothing changed); when nothing changed, any
+\* admissible pair on which the model rejects the reaction explains the record.
+Adm(k) == IF k = 0 THEN {0} ELSE {x \in 1..Len(pe) : sol[x] = sol[k] /\ pe[x] = pe[k]}
+
+ReactAt(r, x, y) ==
+            /\ Do(A(r.op, x, y, r.p1, r.p2))
             /\ r.res \in {"changed", "unchanged"}                 \* the component returned Ok
             /\ (r.res = "changed" /\ r.op \notin {"init", "scoped_init"}) => res'.k = "accepted"   \* a rejected reaction changes nothing
             /\ pe' = r.pe2
-            /\ sol' = r.sol2                                     \* the products sit where the SELECTED molecules were
+            /\ sol' = r.sol2                                     \* the products sit where the located molecules were
             /\ Len(ke') = r.nm                                   \* one molecule record per individual
             /\ buffer' = r.bf
-            /\ (res'.k = "accepted" /\ r.op # "synthesis") => ke'[r.i] = r.kef
+            /\ (res'.k = "accepted" /\ r.op # "synthesis") => ke'[x] = r.kef
             /\ r.op \in {"init", "scoped_init"} => ke' = r.ke2   \* (integers: exact)
             /\ r.pred.cons = 1 /\ r.pred.nonneg = 1 /\ r.pred.split = 1 /\ r.pred.local = 1 /\ r.pred.aligned = 1
             /\ r.pred.lower = 1                                  \* nobody touches the populations underneath
             /\ r.h2 = h'
+
+React == /\ phase = "react" /\ Rec[l].big = 0
+         /\ LET r == Rec[l] IN
+            \E x \in Adm(r.si), y \in Adm(r.sj) :
+               /\ (y # 0 => y # x)
+               /\ (r.res = "changed" => x = r.i /\ y = r.j)
+               /\ ReactAt(r, x, y)
          /\ l' = l + 1 /\ phase' = "load"
 
 TraceNext == Load \/ React \/ ReactBig
